@@ -31,7 +31,8 @@ A program is plain data:
   func = {'name', 'params': [param], 'prepend': k, 'rates': None | [entry],
           'wraps': [fname, ...]}
   param = {'name', 'annot': None|'ir'|'tr'|'ar'|'kr',
-           'default': ('missing',) | ('none',) | ('num', v) | ('tuple', [v..])}
+           'default': ('missing',) | ('none',) | ('num', v) | ('tuple', [v..])
+                      | ('bool', b) | ('invalid', python source)}
   A func with 'fails': True has a parameter carrying an invalid annotation
   ('annot_src'); SynthDef.wrap rejects it as a whole (ValueError, caught by
   the calling graph function), so it contributes NOTHING to the layout; its
@@ -83,6 +84,11 @@ def param_values(param, specs):
     d = param['default']
     if d[0] == 'num':
         return [d[1]], False
+    if d[0] == 'bool':
+        return [1.0 if d[1] else 0.0], False
+    # ('invalid', src): a default that is neither number, None nor tuple is
+    # replaced by None with a logged warning (synthdef.py
+    # _get_valid_arg_values), i.e. treated like a missing default
     if d[0] == 'tuple':
         return list(d[1]), True
     if param['name'] in specs:
@@ -151,8 +157,9 @@ def layout(prog):
             groups.append((fname, g, start, cursor - start, lagged))
     count = {}
     for s in slots.values():
-        count[s.name] = count.get(s.name, 0) + 1
-    by_name = {s.name: s for s in slots.values() if count[s.name] == 1}
+        if s.size:      # a control without slots cannot have a name entry
+            count[s.name] = count.get(s.name, 0) + 1
+    by_name = {s.name: s for s in slots.values() if count.get(s.name) == 1}
     return {'P': cursor, 'slots': slots, 'order': order, 'by_name': by_name,
             'name_count': count, 'defaults': defaults, 'groups': groups}
 
